@@ -12,6 +12,9 @@ TRUST = ("Trusted: go/types + go/ssa (x/tools v0.50.0) lowering of the real pack
          "the module in /verif/specs (listed per run in the evidence), int/int64 arithmetic treated as mathematical, "
          "slice lengths <= 2^48, sequential execution (no goroutine interleavings). ")
 
+B = (" A BOUNDED stand-in (labelled bounded, never counted among the obligations discharged, reported separately in the evidence under "
+     "bounded_stand_ins) runs the real code over a finite grid for the half the contracts cannot state: ")
+
 CLAIMS = {
     "C06": dict(
         text=("Deductive proof, for all inputs, of the packetisation contracts of the RTP encoders: every emitted payload is within "
@@ -87,10 +90,6 @@ CLAIMS["C07"] = dict(
     note=TRUST + "The induction over the packet history is an argument in DESIGN.md, not a machine-checked lemma. Decoders covered are listed in the evidence (functions_under_contract); the others are not decided.",
     design="DESIGN.md section 4, C07",
 )
-BB = None
-B = (" A BOUNDED stand-in (labelled bounded, never counted among the obligations discharged, reported separately in the evidence under "
-     "bounded_stand_ins) runs the real code over a finite grid for the half the contracts cannot state: ")
-
 CLAIMS["C03"] = dict(
     text=("Deductive proof, for the packetizers whose payloads are windows of the input (rtpfragmented, rtpklv, rtplpcm, rtpsimpleaudio), "
           "that the emitted payloads tile the input frame in order with no gap or overlap (same backing array, offset j*limit, lengths summing "
